@@ -1024,6 +1024,27 @@ def generate(rng, tier, mult):
             u = g_val(rng, rng.choice([0, 1, 2]), mixed=mixed, exotic=exotic)
             if _size(u) <= 40:
                 pair(v, u, "indep", fp)
+    # longer sorts (5..12 elements): exercise count_run / binary insertion of the sorted() model, also with a PARTIAL
+    # order (frozenset keys: the result then depends on the exact comparison sequence of CPython's algorithm)
+    for _ in range(max(10, n // 6)):
+        m = rng.randint(5, 12)
+        r = rng.random()
+        if r < 0.35:
+            keys = g_unique(rng, m, lambda: ["i", rng.randrange(-20, 40)] if rng.random() < 0.7 else ["f", rng.randrange(-30, 90)])
+        elif r < 0.5:
+            keys = g_unique(rng, m, lambda: ["s", "".join(rng.choice("abB1 ") for _ in range(rng.randint(0, 3)))])
+        elif r < 0.85:
+            keys = g_unique(rng, m, lambda: ["F", [["i", x] for x in range(1, 5) if rng.random() < 0.4]])
+        else:
+            keys = g_unique(rng, m, lambda: ["T", [["i", rng.randrange(3)], rng.choice([["i", rng.randrange(3)], ["n"], ["f", 2]])]])
+        if rng.random() < 0.5:
+            v = ["D", [[a, ["i", j]] for j, a in enumerate(keys)]]
+        else:
+            v = ["S", keys]
+        pair(v, reorder(rng, v), "bigsort")
+        w = near_miss(rng, v)
+        if w is not None:
+            pair(v, w, "bigsort-near")
     # memoize call sequences with repeated / look-alike arguments
     for _ in range(max(6, n // 8)):
         base = g_val(rng, rng.choice([1, 2]))
